@@ -169,7 +169,61 @@ func checkC15(c *core.Ctx, l *core.Ledger) {
 				}
 			}
 		})
-		l.Check(ok && n == 1, "ANNOT", a.fn, c.Rel(f.Pos()), "true iff the field's annotations contain the key "+a.key, "predicate does not test exactly the annotation key "+a.key)
+		// ... and its answer is the presence of the key on every path: each return is the
+		// lookup's comma-ok itself, or a constant reached only through the matching edge of a test of it
+		why := ""
+		if ok && n == 1 {
+			var present ssa.Value
+			core.Instrs(f, func(in ssa.Instruction) {
+				if ex, isEx := in.(*ssa.Extract); isEx && ex.Index == 1 {
+					if _, isLk := ex.Tuple.(*ssa.Lookup); isLk {
+						present = ex
+					}
+				}
+			})
+			var tEdges, fEdges []core.Edge
+			for _, b := range f.Blocks {
+				if ifi, isIf := b.Instrs[len(b.Instrs)-1].(*ssa.If); isIf && present != nil {
+					cond, neg := ifi.Cond, false
+					for {
+						if u, isU := cond.(*ssa.UnOp); isU && u.Op == token.NOT {
+							cond, neg = u.X, !neg
+							continue
+						}
+						break
+					}
+					if cond == present {
+						t, fl := core.Edge{From: b, To: b.Succs[0]}, core.Edge{From: b, To: b.Succs[1]}
+						if neg {
+							t, fl = fl, t
+						}
+						tEdges, fEdges = append(tEdges, t), append(fEdges, fl)
+					}
+				}
+			}
+			core.Instrs(f, func(in ssa.Instruction) {
+				r, isR := in.(*ssa.Return)
+				if !isR || len(r.Results) != 1 || why != "" {
+					return
+				}
+				switch v := r.Results[0].(type) {
+				case *ssa.Const:
+					val := v.Value != nil && v.Value.String() == "true"
+					edges := fEdges
+					if val {
+						edges = tEdges
+					}
+					if len(edges) == 0 || !core.AllPathsThroughEdges(f, r.Block(), edges) {
+						why = fmt.Sprintf("the predicate answers %v at %s on a path that is not decided by the presence of the key alone", val, c.Rel(r.Pos()))
+					}
+				default:
+					if r.Results[0] != present {
+						why = "the predicate's answer at " + c.Rel(r.Pos()) + " is not the presence of the key"
+					}
+				}
+			})
+		}
+		l.Check(ok && n == 1 && why == "", "ANNOT", a.fn, c.Rel(f.Pos()), "true iff the field's annotations contain the key "+a.key, "predicate does not test exactly the annotation key "+a.key+": "+why)
 	}
 	if f := c.SSAFunc(c.LookupFunc("gen", "redactedContent")); f != nil {
 		ok := false
